@@ -32,6 +32,7 @@ struct DyndepFile {
   std::string path;
   int producer = -1;                    // statement that writes it, -1 = source file
   std::vector<DyndepEntry> entries;
+  bool detached = false;                // C11 second world: the file stays, its information lives in the manifest
 };
 
 struct Stmt {
@@ -40,6 +41,7 @@ struct Stmt {
   bool phony = false;
   std::vector<std::string> outs, imp_outs;
   std::vector<std::string> ins, imp_ins, oo_ins;
+  std::vector<std::string> extra_imp;   // declared as implicit inputs in the manifest, but not necessarily read (C10 second world)
   std::vector<std::string> validations;
   bool restat = false, generator = false;
   int deps_kind = 0;                    // 0 none, 1 depfile only, 2 deps=gcc, 3 deps=msvc
